@@ -742,6 +742,13 @@ def _run_pair(rng, rec, x, name, iname, args, kw, judge_axes=True):
             # pure round-off there
             rec.count("plain_vs_inplace", f"{cls}.{name}", "out_of_domain")
             return
+        if loose and abs(float(np.real(exponent_of(x)))) > 2.0 * max(x.num_tensors, 1):
+            # the simplifications work with absolute thresholds (atol=1e-6, cutoff
+            # 1e-10) on the tensor entries: once a large stored exponent is spread
+            # over the tensors (entries ~1e-6) they discard most of the network and
+            # what is left depends on processing order - not a function of the labels
+            rec.count("plain_vs_inplace", f"{cls}.{name}", "out_of_domain")
+            return
     sig = (cls, name, tuple(sorted(kw)), len(args))
     import copy
     try:
